@@ -60,8 +60,11 @@ def instances(tier, seed):
             lists.append([rnd.choice(kinds) for _ in range(rnd.choice([5, 6]))])
     H = 3 if tier == "quick" else 4
 
+    def heavy(ml):
+        return any(k in ("parrvar", "arrpre", "alpre") for k in ml) or sum(ml.count(k) for k in ("var", "pre", "parr", "opt")) >= 2
+
     def hist(ml):
-        if ml.count("var") >= 2:
+        if ml.count("var") >= 2 or (tier != "quick" and heavy(ml)):
             return 2
         if tier == "quick":
             return 3
@@ -72,7 +75,7 @@ def instances(tier, seed):
         return sum(MINSZ[k] for k in ml)
     lists = [ml for ml in lists if need(ml) <= 12]          # the shortest accepted input must fit the symbolic stream
     for ml in lists:
-        n = (6 if ml.count("prefix3") < 2 else 8) if tier == "quick" else (10 if len(ml) <= 3 else 8)
+        n = (6 if ml.count("prefix3") < 2 else 8) if tier == "quick" else (10 if len(ml) <= 3 and not heavy(ml) else 8)
         out.append(dict(name="lazystruct %s" % ",".join(ml), params=dict(kind="struct", members=ml, H=hist(ml), n=max(n, min(14, need(ml) + 2))), expect=["ok"]))
     for k in kinds:
         out.append(dict(name="lazyarray 3 x %s" % k, params=dict(kind="array", elem=k, count=3 if k not in ("var", "prefix3", "pre", "parr") else 2, H=H if k != "var" else 2, n=(6 if k != "prefix3" else 8) if tier == "quick" else 10), expect=["ok"]))
